@@ -51,7 +51,7 @@ package keeper
 //@   flag havoc=GetTaskID,SetTaskInfo
 //@   modifies state(ctx)
 //@   before[C20.cat.counter] GetTaskID requires arg_taskAddr == hex2addr(params.TaskContractAddress)
-//@   before[C20.cat.owner]   GetTaskID requires contains(res_GetAVSInfoByTaskAddress_0.AvsOwnerAddress, params.CallerAddress) && res_GetAVSInfoByTaskAddress_0.AvsAddress != ""
+//@   before[C20.cat.owner,C10.cat.owner] GetTaskID requires contains(res_GetAVSInfoByTaskAddress_0.AvsOwnerAddress, params.CallerAddress) && res_GetAVSInfoByTaskAddress_0.AvsAddress != ""
 //@   before[C20.cat.stored]  SetTaskInfo requires arg_task.TaskId == res_GetTaskID_0 && arg_task.TaskContractAddress == params.TaskContractAddress &&
 //@        arg_task.StartingEpoch == wrapu(res_GetEpochInfo_0.CurrentEpoch + 1, 18446744073709551616)
 
